@@ -265,6 +265,11 @@ class Check(common.Check):
 
     def g_match(self, rng):
         path = rng.choice(self.PATHS + ['/', '', 'x', '/a\nb', '/é'])
+        if rng.random() < 0.55 and path.startswith('/') and len(path) > 1:
+            p = self.g_pattern_for(rng, path)                    # built to match this very address
+            if rng.random() < 0.25:
+                p = rng.choice([p + '?', p[:-1], p + 'x', p.replace('?', '', 1), p + '*'])
+            return {'k': 'match', 'p': p, 'a': path}
         return {'k': 'match', 'p': self.g_address(rng), 'a': path}
 
     def g_args(self, rng):
@@ -1028,4 +1033,8 @@ class Check(common.Check):
         return c
 
 
-Check.THEOREMS = ['Sc3Verif.C18.' + t for t in ()]
+Check.THEOREMS = ['Sc3Verif.C18.' + t for t in (
+    'fullmatch_iff_language', 'match_iff_language', 'malformed_matches_nothing', 'literal_matches_only_itself',
+    'malformed_no_dispatch', 'decoder_total', 'negative_element_size_rejected',
+    'registry_runs_current', 'registry_runs_subsequence', 'registry_add_order', 'registry_remove_removes',
+    'server_action_remove_removes', 'server_action_run', 'notification_notify')]
